@@ -284,13 +284,12 @@ Section NoDeadlock.
       destruct f as [s pa ca]. simpl in *.
       destruct s as [ib ex ed w e lo le pc mc c n dl r]. simpl in *. subst.
       destruct k as [|k]; [congruence|]. destruct ib as [|b0 ib]; [simpl in Hp; lia|].
-      assert (Hsk : length (skipn k ib) <= flo p) by (rewrite skipn_length; simpl in Hlen; lia).
-      destruct into; simpl;
-        rewrite Nat.ltb_antisym;
-        (replace (Nat.leb (length (skipn k ib)) (Datatypes.S (length ib))) with true
-           by (symmetry; apply Nat.leb_le; rewrite skipn_length; lia));
-        simpl; unfold maybe_resume; simpl;
-        (replace (Nat.leb (length (skipn k ib)) (flo p)) with true by (symmetry; apply Nat.leb_le; exact Hsk));
-        reflexivity.
+      assert (Hsk : (length (skipn (S k) (b0 :: ib)) <=? flo p) = true).
+      { apply Nat.leb_le. rewrite skipn_length. simpl in *. lia. }
+      unfold byte in Hsk.
+      destruct into;
+        lazy beta iota zeta delta -[skipn firstn length Nat.leb Nat.ltb Nat.max flo fhigh fmax];
+        rewrite Hsk;
+        match goal with |- context [Nat.ltb ?a ?b] => destruct (Nat.ltb a b) end; reflexivity.
   Qed.
 End NoDeadlock.
